@@ -100,8 +100,10 @@ CLAIMED["C09"] = dict(
          "fields in any order, unit and tuple variants, any nesting) that the model of Literal::is_of_type accepts for a type, "
          "the literal denotes a well-typed value of the type and the model of as_bits emits exactly that value's encoding - "
          "size(T) bits that decode to it (hypothesis: the struct/enum definitions used for encoding are those of the type, "
-         "field names distinct). PARTIAL: from_unwrapped_bits, printing and parsing are not covered by a theorem; the models of "
-         "literal.rs are tied to the code by correspondence: random types x values x "
+         "field names distinct). C09_decoder_roundtrip: the model of from_unwrapped_bits (Ty.fromBits) accepts the encoding of "
+         "EVERY well-typed value and returns a literal that denotes exactly that value (same well-formedness of types: distinct "
+         "field names, unit variants without fields). PARTIAL: printing and parsing of literal TEXT are not covered by a "
+         "theorem; the models of literal.rs are tied to the code by correspondence: random types x values x "
          "{canonical literal, alternative spellings, one adversarial edit} through literal_arg, as_bits, parse_output, "
          "Evaluator::set_literal + the identity program, against the Lean transliteration AND an independent Python specification. "
          "The print/parse sentence is explored through the implementation only (no Lean model of the literal parser).",
